@@ -590,9 +590,13 @@ def run(ctx):
         + [h[2] for h in hdone]
     verdicts = ctx.judge("Trace_Affine", cases, workers=12, chunk=3000)
     classes = {}
-    for tid, (st, clause, _) in verdicts.items():
-        if st != "ok" and clause.startswith("machinery:"):
-            raise tlc.MachineryError("Trace_Affine could not judge case %s: %s" % (tid, clause))
+    # cases TLC could not decide in 32-bit fixed point: never a verdict.  They end the run as a
+    # machinery failure only if no decidable case of the same run violates the oracle (a wrong
+    # transform typically produces both kinds)
+    undecided = [tid for tid, (st, clause, _) in verdicts.items() if st != "ok" and clause.startswith("machinery:")]
+    for tid in undecided:
+        verdicts[tid] = ("ok", "ok", 0)
+    ctx.notes["undecidable_cases"] = len(undecided)
     for (p, res, case, data) in done:
         ctx.count()
         if is_nontrivial(p):
@@ -681,6 +685,9 @@ def run(ctx):
         "generations_judged_per_case": "file, api, api2 (same image object, other sharding), store "
                                        "(same image object, storing function)"}
     ctx.notes["compact_cases"] = len(cdone)
+    if undecided and not ctx.violations:
+        raise tlc.MachineryError("Trace_Affine could not judge %d case(s), e.g. case %s: machinery:OutOfReach"
+                                 % (len(undecided), undecided[0]))
     for (p, res, case, data) in done[:2]:
         ctx.sample({"plan": plan_json(p), "obs_file": {k: case["obs"][0].get(k) for k in
                                                       ("size", "channels", "dtype", "res", "T", "t")},
